@@ -111,14 +111,20 @@ def runCase (reuse : Bool) (maxSize : Nat) (plan : List (Nat × FileSet.Fault)) 
   let verdict := okAll && (List.range n).all fun x => s.failed.contains x || keptB s.fs (cfg.ev x)
   let sig := if n ≤ 1 then "trivial"
     else s!"attempts={min attempts 6},retries={min s.ch.mRetry 3},failed={min s.failed.length 2},files={min s.fs.fs.length 4},faults={min plan.length 3}"
-  (if verdict then "flushed" else "model-does-not-flush") ++ "\t" ++ sig
+  -- the files in creation order with their synced / unsynced content, and the number of filesystem operations
+  let created : List (List Nat) := s.fs.log.filterMap fun e => match e with | .created n => some n | _ => none
+  let showFile (n : List Nat) : Option String :=
+    (s.fs.fs.lookup n).map fun f =>
+      atomOfBytes (f.synced.map UInt8.ofNat) ++ "/" ++ atomOfBytes (f.unsynced.map UInt8.ofNat)
+  let files := ",".intercalate (created.filterMap showFile)
+  (if verdict then s!"flushed files=[{files}] ops={s.fs.op}" else "model-does-not-flush") ++ "\t" ++ sig
 
 def runC07p (line : String) : String :=
   match Sexp.parse line with
   | some (.list (.atom "c07p" :: .list [.atom "cfg", reuse, ms] :: .list (.atom "plan" :: fs) :: rs)) =>
     match reuse.bool?, ms.nat?, fs.mapM fault?, rs.mapM round? with
     | some reuse, some ms, some plan, some rounds =>
-      if rounds.isEmpty || rounds.length > 6 || rounds.any (·.length > 40) then "bad-op"
+      if rounds.isEmpty || rounds.length > 6 || rounds.any (·.length > 40) || !(plan.map (·.1)).Nodup then "bad-op"
       else runCase reuse ms plan rounds
     | _, _, _, _ => "bad-op"
   | _ => "bad-op"
